@@ -46,6 +46,10 @@ def small_recipes():
         "html": lambda m, st, h: m.HTMLResponse("<b>x</b>", st, h, charset="latin-1"),
         "json_kw": lambda m, st, h: m.JSONResponse({"b": 1, "a": [1, 2]}, st, h, indent=2, sort_keys=True, ensure_ascii=True),
         "json": lambda m, st, h: m.JSONResponse({"k": [1, None, "中"]}, st, h),
+        # the media_type / charset arguments: a type that already carries a charset parameter, a non-text type, another charset
+        "text_mt": lambda m, st, h: m.PlainTextResponse("a,b\n1,2", st, h, media_type="text/csv; charset=utf-8"),
+        "text_mt2": lambda m, st, h: m.PlainTextResponse("é", st, h, media_type="text/x-own", charset="latin-1"),
+        "html_mt": lambda m, st, h: m.HTMLResponse("<i>ü</i>", st, h, media_type="application/xhtml+xml"),
     }
     for ri, target in enumerate(REDIRECTS):
         contents[f"redirect{ri}"] = (lambda m, st, h, target=target: m.RedirectResponse(target, 307 if st == 200 else st, h))
